@@ -562,6 +562,9 @@ func (s *State) evalIndexRangeExpression(left object.Object, leftIdx, rightIdx a
 			r = int64(num) + r
 		}
 	}
+	// Still negative after the relative-to-end adjustment: clamp like the upper bound is.
+	l = max(l, 0)
+	r = max(r, 0)
 	if l > r {
 		return s.NewError("range index invalid: left greater then right")
 	}
